@@ -1,2 +1,47 @@
--- driver stub (not built yet)
-def main : IO Unit := pure ()
+import QmcModel.Proto
+import QmcModel.Basic
+import QmcModel.Rand
+import QmcModel.Ham
+open Qmc Qmc.Proto
+
+/-- `a:b:J,a:b:J,…` -/
+def parseEdges (s : String) : List (List Nat × Rat) :=
+  (parseList id s).filterMap fun tok =>
+    match tok.splitOn ":" with
+    | [a, b, j] => some ([parseNat a, parseNat b], parseRat j)
+    | _ => none
+
+def mkModel (e g h n : String) : IsingModel :=
+  { edges := parseEdges e, transverse := parseRat g, longitudinal := parseRat h, nvars := parseNat n }
+
+def approxE (r : Rat) : String :=
+  let scale : Nat := 10 ^ 15
+  let v : Int := (r * (scale : Rat)).floor
+  s!"~{v}e-15"
+
+def step (toks : List String) : String :=
+  match toks with
+  | ["ham", e, g, h, n] =>
+    let m := mkModel e g h n
+    let H := isingHam m
+    let entries := (List.range H.nbonds).flatMap fun b =>
+      let k := (H.vars b).length
+      (patterns k).flatMap fun ins => (patterns k).map fun outs => showRat (H.w b ins outs)
+    s!"{H.nbonds} {showRat m.offset} {String.intercalate "," entries}"
+  | ["energy", e, g, h, n, avg, beta] =>
+    let m := mkModel e g h n
+    approxE (-(parseRat avg / parseRat beta) + m.offset)
+  | ["refresh", _before, idle, ws] =>
+    -- one genBool(1/2) per variable without operators, in increasing index order
+    let idl := parseBits idle
+    let rs0 := RS.ofScript (parseNats ws)
+    let (out, rs) := idl.foldl (fun (acc : List Bool × RS) isIdle =>
+      if isIdle then
+        let (b, rs') := acc.2.genBool (1 / 2)
+        (acc.1 ++ [b], rs')
+      else (acc.1 ++ [false], acc.2)) ([], rs0)
+    if rs.clean then showBits out else s!"bad-draw-count {rs.verdict}"
+  | "pipeline" :: _ => "same"
+  | _ => "bad-op"
+
+def main : IO Unit := run step
